@@ -277,7 +277,7 @@ func registerJSON(reg func(string, intercept), nop intercept) {
 			if h := e.jsonHavoc; h != nil {
 				return h(e, fr, data, dst)
 			}
-			panic(e.unsupported("json.Unmarshal of bytes that did not come from json.Marshal"))
+			return jsonDefaultHavoc(e, fr, data, dst)
 		}
 		if dst.T == nil {
 			return e.mkError("json: Unmarshal(nil)")
@@ -852,3 +852,77 @@ func init() {
 		return Tuple{total, Iface{}}
 	}
 }
+
+// ---- hostile JSON -------------------------------------------------------------------------
+// With Bounds["json_havoc"]=1, json.Unmarshal of bytes that did not come from
+// json.Marshal (attacker-controlled text) either fails or fills the destination with
+// arbitrary values of the destination's type (strings: length 0 or 1).
+
+func (e *Engine) havocValue(t types.Type, depth int) Value {
+	switch u := t.Underlying().(type) {
+	case *types.Basic:
+		if u.Kind() == types.Bool {
+			return e.freshInternal("jb", BoolSort)
+		}
+		if w, _, ok := intWidth(u); ok {
+			return e.freshInternal("ji", BV(w))
+		}
+		if u.Info()&types.IsString != 0 {
+			if e.ChooseN(2) == 0 {
+				return Str{}
+			}
+			return Str{Sym: []*Term{e.freshInternal("js", BV(8))}}
+		}
+		if u.Info()&types.IsFloat != 0 {
+			return float64(0)
+		}
+	case *types.Struct:
+		b := &Backing{E: make([]Value, u.NumFields())}
+		for i := range b.E {
+			if depth > 3 || !u.Field(i).Exported() {
+				b.E[i] = e.zero(u.Field(i).Type())
+			} else {
+				b.E[i] = e.havocValue(u.Field(i).Type(), depth+1)
+			}
+		}
+		return b
+	case *types.Pointer:
+		if depth > 2 || e.ChooseN(2) == 0 {
+			return Ptr{}
+		}
+		return Ptr{B: &Backing{E: []Value{e.havocValue(u.Elem(), depth+1)}}}
+	case *types.Slice:
+		if depth > 2 || e.ChooseN(2) == 0 {
+			return Slice{}
+		}
+		return Slice{B: &Backing{E: []Value{e.havocValue(u.Elem(), depth+1)}}, Len: 1, Cap: 1}
+	}
+	return e.zero(t)
+}
+
+func init() {
+	defaultHavoc := func(e *Engine, fr *frame, data Slice, dst Iface) Value {
+		if e.cfg.Bounds["json_havoc"] == 0 {
+			panic(e.unsupported("json.Unmarshal of bytes that did not come from json.Marshal"))
+		}
+		if e.ChooseN(2) == 0 {
+			return e.mkError("invalid character (hostile json)")
+		}
+		if dst.T == nil {
+			return e.mkError("json: Unmarshal(nil)")
+		}
+		pt, ok := dst.T.Underlying().(*types.Pointer)
+		if !ok {
+			return e.mkError("json: Unmarshal(non-pointer)")
+		}
+		p := dst.V.(Ptr)
+		if p.B == nil {
+			return e.mkError("json: Unmarshal(nil pointer)")
+		}
+		e.store(p, e.havocValue(pt.Elem(), 0))
+		return Iface{}
+	}
+	jsonDefaultHavoc = defaultHavoc
+}
+
+var jsonDefaultHavoc func(e *Engine, fr *frame, data Slice, dst Iface) Value
